@@ -22,7 +22,7 @@ KNOWN = os.path.join(ROOT, "known_findings.json")
 SRC_DIR = [KANI_DIR]
 GUARD_FLAGS = "--cfg rva_verif"
 
-CAPS = {"quick": 300, "thorough": 1500}          # wall seconds per harness
+CAPS = {"quick": 900, "thorough": 1500}          # wall seconds per harness (quick was 300: on a slower or shared host four C14 harnesses that need 90-280 s here reached it)
 MEM_KB = 40 * 1024 * 1024                         # ulimit -v per kani process tree
 MEM_BUDGET_GB = int(os.environ.get("VERIF_MEM_GB", "52"))   # 62 GB machine, no swap
 
